@@ -71,8 +71,14 @@ Definition dates_ordered (a c : option ts) : bool :=
 Definition vb_date_criteria (d : date_criteria) : bool :=
   match d with
   | DCNone => true
-  | DCMinStart t => (LedgerConsts.date_criteria_min_start_seconds <=? secs t)
-  | DCWindow ds _ => (LedgerConsts.date_criteria_min_window_seconds <=? ds)
+  | DCMinStart t => (LedgerConsts.date_criteria_min_start_seconds <=? secs t) &&
+                    (secs t <=? LedgerConsts.date_criteria_max_start_seconds) &&
+                    (LedgerConsts.date_criteria_start_nanos_lo <=? nanos t) &&
+                    (nanos t <? LedgerConsts.date_criteria_start_nanos_hi)
+  | DCWindow ds dn => (LedgerConsts.date_criteria_min_window_seconds <=? ds) &&
+                      (ds <=? LedgerConsts.date_criteria_max_window_seconds) &&
+                      (LedgerConsts.date_criteria_window_nanos_lo <=? dn) &&
+                      (dn <? LedgerConsts.date_criteria_window_nanos_hi)
   | DCYears _ => true
   end.
 
